@@ -15,6 +15,8 @@ CLAIMED = {
          'Trusted: model catalogue (checked_*, rem_euclid, Option plumbing). Outside: constructor string parsing (regex, chrono), ip, decimal parsing.', '4 C07'),
  'C14': ('TPE response: classification of residual policies into the eight bucket sets and the residual map (one loop step from an arbitrary state, Residual::is_true/is_false/is_error executed from MIR), completion-quantified decision table, reason(), ResidualPolicy -> Policy conversion, policy_set() presents the residuals',
          'Trusted: environment stubs for iterator/HashMap/HashSet/PolicySet::add and uninterpreted Policy getters. Outside: tpe::Evaluator simplification rules, can_error_assuming_well_formed, consistency checks, query_* APIs.', '4 C14'),
+ 'C11': ('schema conformance per node / loop element: ValidatorSchema::{validate_request, validate_scope_variables, validate_context}, EntitySchemaConformanceChecker::{validate_entity, validate_entity_attributes, validate_entity_ancestors, validate_tags, validate_action}, validate_euid, is_valid_enumerated_entity, validate_euids_in_subexpressions, typecheck_restricted_expr_against_schematype and Type::typecheck_restricted_expr for every (type kind, value kind) with <= 2 members and arbitrary member verdicts, and the core entry points (Entities::{add,upsert,from}_entities, single_from_ejson, Request::{new,new_with_unknowns}): accept exactly when every requirement holds',
+         'Trusted: schema look-ups as arbitrary-answer stubs (that the schema object answers correctly is only exercised natively), name/type equality as free booleans, small-container models for HashMap/BTreeMap/iterator adaptors. Outside: JSON parsing and schema-directed coercion, TPE entry points, correctness of CoreSchema/EntityTypeDescription construction.', '4 C11'),
  'C16': ('level checker: per-node level calculus of check_expr_level / check_entity_deref_target_level (every node kind, arbitrary child levels and maximum): every child visited with the right access path, dereferences report `maximum level exceeded` iff target level >= max (=> monotone in the maximum), +1 for entity attribute access and getTag, max over if-branches, non-action literals rejected',
          'Trusted: recursive calls as arbitrary levels; Expr::data annotation as entity/record/other. The RFC-76 induction from the per-node calculus to slice sufficiency is a paper argument and NOT decided; record-literal access-path lookup and the loop over request environments are outside.', '4 C16'),
  'C18': ('SymCC constant folding: symcc::bitvec::BitVec {add,sub,mul,udiv,urem,sdiv,srem,smod,neg,not,slt,sle,ult,ule,to_int,of_int,overflows} executed from the MIR of cedar-policy-symcc (num-bigint as SMT integers) against the SMT-LIB definitions at widths 1,2,8,64 (thorough: +3,32,128), and the factory overflow predicates bvsaddo/bvssubo/bvsmulo/bvnego on literal operands against the exact-integer overflow condition (= i64::checked_* returning None at width 64)',
